@@ -584,3 +584,113 @@ def text_units(R, ctx, rid):
                  "%s is reached for kinds %s: missing %s, must-not %s, live-only=%s, content switches=%d — %s" %
                  (callee.rsplit("::", 1)[-1], sorted(ks), sorted(missing), sorted(extra), live, used, why), cs.loc())
     R.floor(rid, "text unit consumers", n, 2)
+
+
+def no_early_exit(R, rid, fn, next_call, what, sorted_by=None):
+    """R-SCAN (for-all form): the loop driven by `next_call` visits every element — its only normal exits leave from the block
+    that tests the iterator's result (exhaustion) or end in `unreachable`. `sorted_by`: field suffix of the sort key of the
+    elements; an exit taken exactly on `element.<key> >= bound` is accepted (every later element is beyond the bound too)."""
+    body = loop_blocks(fn, next_call.bb)
+    test_bb = next_call.t.get("target")
+    bad = []
+    lits = F.switch_literals(fn)
+    for u, w in loop_exit_edges(fn, next_call.bb):
+        if u == test_bb or u == next_call.bb:
+            continue
+        if "unreachable" in fn.blocks[w]["t"]:
+            continue
+        if sorted_by:
+            ok = False
+            for l in lits:
+                if l.bb == u and l.to == w and isinstance(l.polarity, bool):
+                    t = simp(l.term)
+                    if t[0] == "bin":
+                        a, b = simp_deep(t[2]), simp_deep(t[3])
+                        ka = a[0] == "field" and a[1].endswith(sorted_by)
+                        kb = b[0] == "field" and b[1].endswith(sorted_by)
+                        if (t[1] in ("Ge", "Gt") and l.polarity is True and ka and not kb) or (t[1] in ("Lt", "Le") and l.polarity is False and ka and not kb) or \
+                                (t[1] in ("Le", "Lt") and l.polarity is True and kb and not ka) or (t[1] in ("Gt", "Ge") and l.polarity is False and kb and not ka):
+                            ok = True
+            if ok:
+                continue
+        bad.append((u, w, fn.blocks[u]["t"].get("line")))
+    R.ob(rid, fn, "visits-all:" + what, not bad,
+         "the loop over %s has no exit but exhaustion (%d blocks)" % (what, len(body)) if not bad else
+         "the loop over %s can be left early (line %s): elements after the exit are never examined" % (what, ", ".join(str(b[2]) for b in bad)),
+         next_call.loc())
+
+
+def exclude_known(R, ctx, rid):
+    """what the receiver already holds is cut out of an incoming update before integration (BlockSet::exclude)."""
+    Y = ctx.yrs
+    fn = Y.fn("yrs::update::BlockSet::exclude")
+    v = FnView(fn)
+    R.rule(rid, "R-SCAN+R-PROV duplicates are cut out completely: BlockSet::exclude (the only de-duplication in front of "
+                "Update::integrate) examines EVERY known range of every client — neither loop has an exit other than the "
+                "exhaustion of its iterator, or, for the sorted known ranges, an exit taken exactly on `range.start >= bound` (a known range that lies before the update's first block says nothing about later ones: "
+                "a receiver with an integrated hole has several) — and replaces the covered blocks by one Skip that starts at the known "
+                "range's start and has the known range's length, under `start_index < end_index`")
+    nexts = [c for c in fn.calls() if re.search(r"Iterator>?::next$", c.name)]
+    R.floor(rid, "loops in BlockSet::exclude", len(nexts), 2)
+    for cs in nexts:
+        recv = simp_deep(v.arg(cs, 0, 10))
+        what = "the known ranges of a client" if term_has_call(recv, "re:IdRanges(<.*>)?::iter$") else "the clients"
+        no_early_exit(R, rid, fn, cs, what, sorted_by="Range.start" if what.startswith("the known ranges") else None)
+    skips = [(i, st) for i, j, st in fn.stmts() if "agg" in st["rv"] and st["rv"]["agg"].get("variant") == "Skip" and str(st["rv"]["agg"].get("adt", "")).endswith("Block")]
+    R.floor(rid, "Skip replacement in BlockSet::exclude", len(skips), 1)
+    for k, (i, st) in enumerate(skips):
+        t = simp_deep(v.terms.rvalue(st["rv"], 14))
+        br = None
+        for x in walk(t):
+            if x[0] == "call" and x[1].endswith("BlockRange::new") and len(x[2]) == 2:
+                br = x
+                break
+        ok = False
+        why = "no BlockRange::new"
+        if br:
+            idt, ln = simp_deep(br[2][0]), simp_deep(br[2][1])
+            start_ok = idt[0] == "call" and idt[1].endswith("ID::new") and len(idt[2]) == 2 and simp_deep(idt[2][1])[0] == "field" and simp_deep(idt[2][1])[1].endswith("Range.start")
+            len_ok = term_has_call(ln, "re:(ExactSizeIterator|Range)(<.*>)?>?::len$") or (ln[0] in ("cast",) and term_has_call(ln, "re:::len$")) or \
+                any(x[0] == "bin" and x[1].replace("WithOverflow", "") == "Sub" and term_has_field(x[2], "Range.end") and term_has_field(x[3], "Range.start") for x in walk(ln))
+            guarded = any(simp(l.term)[0] == "bin" and simp(l.term)[1] == "Lt" and l.polarity is True for l in v.guards(i))
+            ok = start_ok and len_ok and guarded
+            why = "Skip(ID(client, range.start), range.len()) under start_index < end_index" if ok else "start from the known range: %s, length of the known range: %s, guarded: %s" % (start_ok, len_ok, guarded)
+        R.ob(rid, fn, "skip#%d" % k, ok, why, "%s:%s" % (fn.file, st["line"]))
+
+
+NAME_READ_EXCEPTIONS = {
+    "yrs::block::Item::new": "copies the parent's name into a freshly created nested branch (the reason a nested branch can carry a name at all)",
+}
+
+
+def branch_identity(R, ctx, rid):
+    Y = ctx.yrs
+    R.rule(rid, "R-GUARD a branch is nested iff it has an item (belief rule, 4 of 4 readers on the pinned tree): every read of "
+                "`Branch.name` that builds an identity — Branch::id, the parent info written by Item::encode / ItemSlice::encode, "
+                "StickyIndex::from_type — is reached only where `Branch.item` was tested and is None. A nested branch decoded from an "
+                "update with a root parent carries a copy of that root's name (Item::new), so deciding by the name first addresses "
+                "the parent root collection instead of the nested one")
+    n = 0
+    for p, fn in sorted(Y.fns.items()):
+        if not fn.mir or "::test" in p or p.rsplit("::", 1)[-1] == "fmt":
+            continue
+        v = None
+        k = 0
+        for i, j, st in fn.stmts():
+            rv = st["rv"]
+            pl = rv.get("ref") or rv.get("discr") or (rv.get("use") or {}).get("c") or (rv.get("use") or {}).get("m")
+            if not (isinstance(pl, dict) and F.place_has_field(pl, "Branch.name")) or isinstance(st["dst"], dict):
+                continue
+            root = Y.root_of(fn).path
+            site = "name-read#%d" % k
+            k += 1
+            if root in NAME_READ_EXCEPTIONS:
+                R.inventory(rid, fn, site, "accepted exception: " + NAME_READ_EXCEPTIONS[root], "%s:%s" % (fn.file, st["line"]))
+                continue
+            v = v or FnView(fn)
+            n += 1
+            ok = any(term_has_field(l.term, "Branch.item") and l.polarity == "None" for l in v.guards(i))
+            R.ob(rid, fn, site, ok, "the name is read only where the branch has no item" if ok else
+                 "Branch.name is read without `item is None` on its path: a nested branch that carries its root parent's name is "
+                 "taken for that root", "%s:%s" % (fn.file, st["line"]))
+    R.floor(rid, "identity reads of Branch.name", n, 3)
